@@ -390,6 +390,50 @@ def run_job(job, io):
                             viol('internal-error', site, 'malformed flatten result raised %s' % describe_outcome(got))
                     keys.add('%s|malformed|%s|%s' % (opname, m, type(e).__name__))
                 del got
+    # ---- a leaf iterator that is used again after one of its next() calls failed: what it yields across the failure must
+    # still be an in-order, repeat-free subsequence of the tree's leaves (the node being expanded when the callback failed may be
+    # lost — Python gives iterators no resumption contract — but nothing may be delivered twice or out of order)
+    if not violations:
+        U.HOOK = None
+        base_leaves = list(optree.tree_iter(scn.tree, is_leaf=scn.pred, **scn.kw))
+        ev_it = []
+        U.HOOK = ev_it.append
+        list(optree.tree_iter(scn.tree, is_leaf=scn.pred, **scn.kw))
+        U.HOOK = None
+        pos = {id(x): i for i, x in enumerate(base_leaves)}
+        if len(pos) == len(base_leaves):  # identity is only a usable key when no leaf object occurs twice
+            for k in range(1, min(len(ev_it), 40) + 1):
+                io.progress({'site': 'iter-resume@%s' % ev_it[k - 1], 'tape': tape.values})
+                inj = Injected(('iter', k))
+                c = [0]
+
+                def hook(lab, c=c, k=k, inj=inj):
+                    c[0] += 1
+                    if c[0] == k:
+                        raise inj
+                it = optree.tree_iter(scn.tree, is_leaf=scn.pred, **scn.kw)
+                got = []
+                U.HOOK = hook
+                failed = 0
+                while True:
+                    try:
+                        got.append(next(it))
+                    except StopIteration:
+                        break
+                    except Injected:
+                        failed += 1
+                        if failed > 1:
+                            break
+                U.HOOK = None
+                inj.__traceback__ = None
+                faults_fired['raise'] += 1
+                idx = [pos.get(id(x), -1) for x in got]
+                if -1 in idx or any(b <= a for a, b in zip(idx, idx[1:])):
+                    viol('iterator-after-failure', 'iter-resume@%s' % ev_it[k - 1], 'after next() failed at callback #%d the iterator yielded leaves out of order / twice / unknown: positions %r of %d leaves' % (k, idx, len(base_leaves)))
+                    break
+                keys.add('iter-resume|%s|%d' % (ev_it[k - 1], bucket(k)))
+                del it, got
+
     # ---- malformed returns must be judged the same way by every entry point that reaches the custom flatten function
     if not violations:
         insts = {}
